@@ -40,6 +40,23 @@ func cmdExplore(args []string) int {
 				fmt.Printf("%s\t%s.%s\t%s\t%v\t%s\n", p.Pos(a.Assign.Pos()), relPkg(pk.PkgPath), fn, funcIDFull(a.Callee), ok, why)
 			}
 		}
+	case "maporder":
+		for _, pk := range p.ModulePkgs() {
+			for _, l := range findMapLoops(p, pk) {
+				classifyLoop(p, l, nil)
+				v, bad := l.verdict()
+				extra := ""
+				if v == "append" {
+					for _, e := range l.Effects {
+						if e.Kind == "append" && e.Obj != nil {
+							ok, why := sortedBeforeUse(p, l, e.Obj, nil)
+							extra += fmt.Sprintf(" [%s sorted=%v: %s]", e.Obj.Name(), ok, why)
+						}
+					}
+				}
+				fmt.Printf("%s\t%s\t%s\t%s\t%s%s\n", p.Pos(l.Range.Pos()), v, l.Key, effectSummary(l.Effects), effectSummary(bad), extra)
+			}
+		}
 	case "swallow":
 		for _, pk := range p.ModulePkgs() {
 			for _, s := range findSwallows(p, pk) {
